@@ -48,7 +48,7 @@ variable (P : Params F E)
 /-- one prepared spec: the in-place build equals the value-level build on the spec's value; only the
 spec's own encoder cell is written -/
 theorem buildOne_sim (d : Data) (kept : List Nat) (cache : Dict (List (String × F)))
-    (w : World F E) (ec : EncCache E) (res : Except Err (List (Part F E × Spec E))) (p : Spec E)
+    (w : World F E) (ec : Caches E) (res : Except Err (List (Part F E × Spec E))) (p : Spec E)
     (H : ∀ l, res = .ok l → ∀ x ∈ l, x.2.e ≠ p.e) :
     (buildOne P d kept cache (w, ec, res) p).2.1 = (pBuildOne P d kept cache (ec, absR w res) (absS w p)).1
     ∧ absR (buildOne P d kept cache (w, ec, res) p).1 (buildOne P d kept cache (w, ec, res) p).2.2
@@ -100,7 +100,7 @@ theorem buildOne_sim (d : Data) (kept : List Nat) (cache : Dict (List (String ×
 
 /-- step 3 over all prepared specs whose encoder cells are pairwise distinct -/
 theorem buildAll_sim (d : Data) (kept : List Nat) (cache : Dict (List (String × F))) :
-    ∀ (ps : List (Spec E)) (w : World F E) (ec : EncCache E) (res : Except Err (List (Part F E × Spec E))),
+    ∀ (ps : List (Spec E)) (w : World F E) (ec : Caches E) (res : Except Err (List (Part F E × Spec E))),
     (ps.map (·.e)).Nodup →
     (∀ l, res = .ok l → ∀ x ∈ l, ∀ p ∈ ps, x.2.e ≠ p.e) →
     (ps.foldl (buildOne P d kept cache) (w, ec, res)).2.1
